@@ -633,7 +633,7 @@ func invariantIn(v ssa.Value, body map[*ssa.BasicBlock]bool) bool {
 // proveAt proves lo ≤ v (and v ≤ hi if hasHi) at instruction `at` on every path from the function entry.
 func proveAt(p *Program, t *Termer, at ssa.Instruction, v ssa.Value, lo int64, hi int64, hasHi bool) (bool, string) {
 	fn := at.Parent()
-	paths, ok := EnumLits(fn.Blocks[0], 0, TabOpts{Termer: t, Limit: 300000,
+	paths, ok := EnumLits(fn.Blocks[0], 0, TabOpts{Termer: t, Limit: 300000, StopGoesOn: inCycle(at.Block()),
 		Stop: func(in ssa.Instruction, ps *pathState) bool { return in == at }})
 	if !ok {
 		return false, "too many paths"
@@ -752,7 +752,7 @@ func runContract(c *Ctx) {
 				continue
 			}
 			n++
-			paths, _ := EnumLits(fn.Blocks[0], 0, TabOpts{Termer: t, Stop: func(i2 ssa.Instruction, ps *pathState) bool { return i2 == ssa.Instruction(s) }})
+			paths, _ := EnumLits(fn.Blocks[0], 0, TabOpts{Termer: t, StopGoesOn: inCycle(s.Block()), Stop: func(i2 ssa.Instruction, ps *pathState) bool { return i2 == ssa.Instruction(s) }})
 			good := true
 			for _, lp := range paths {
 				if lp.Stop == nil {
@@ -874,6 +874,46 @@ func runContract(c *Ctx) {
 		c.Check(good && n > 0, "readOp result length", fn.Pos(), "readOp returns one or two bytes of its (non-empty) argument%s", why)
 	} else {
 		c.Undecided("readOp result length", token.NoPos, "sql.readOp not found")
+	}
+	// the token readers' counts: −1 (not a token) or the number of bytes consumed, 1..len of what they were given
+	// (readBareword: 0..len — that it consumes at least the letter it was called for is the dispatch's business and stays
+	// an assumption). The tokenizer advances by these counts; 0 or a count past the end would hang or crash it.
+	for _, tr := range []struct {
+		name string
+		arg  int
+		min  int64
+	}{{"readNumericLiteral", 0, 1}, {"readQuoted", 1, 1}, {"readBareword", 0, 0}} {
+		fn := p.Func("sql", tr.name)
+		if fn == nil {
+			c.Undecided("token count "+tr.name, token.NoPos, "sql.%s not found", tr.name)
+			continue
+		}
+		paths, complete := EnumLits(fn.Blocks[0], 0, TabOpts{Termer: t, Limit: 200000, FieldCells: true})
+		good, why, n := complete, "", 0
+		argLen := "len(" + t.Term(fn.Params[tr.arg], emptyPS()) + ")"
+		for _, lp := range paths {
+			if lp.Exit == nil || len(lp.Exit.Results) != 2 {
+				continue
+			}
+			pr := newProver(p, t, lp)
+			if pr.g.inconsistent() {
+				continue
+			}
+			n++
+			cnt := lp.PS.Resolve(lp.Exit.Results[1])
+			if k, isC := constInt(cnt); isC && k < 0 {
+				continue // "not a token"
+			}
+			l := pr.linOf(cnt)
+			pr.g.addLE(zero, argLen, 0)
+			pr.applyDisj()
+			if !pr.g.entailsLE(zero, l.base, l.off-tr.min) {
+				good, why = false, fmt.Sprintf("; count %s ≥ %d not proven on path [%s]", t.Term(cnt, lp.PS), tr.min, pathDesc(lp))
+			} else if !pr.g.entailsLE(l.base, argLen, -l.off) {
+				good, why = false, fmt.Sprintf("; count %s ≤ %s not proven on path [%s]", t.Term(cnt, lp.PS), argLen, pathDesc(lp))
+			}
+		}
+		c.Check(good && n > 0, "token count "+tr.name, fn.Pos(), "%s reports −1 or a count of consumed bytes within %d..len%s", tr.name, tr.min, why)
 	}
 	// scan-error contract: scanInt64/scanFloat64/scanTime return a non-nil error only after establishing i < len(r)
 	for _, name := range []string{"scanInt64", "scanFloat64", "scanTime"} {
